@@ -307,6 +307,33 @@ def registration(chk, prog, cfg):
                 chk.ob("R4.registration", p, f"route/sub-app vector mutated by {t['callee'].split('::')[-1]}", False,
                        f"{t['callee']} on {tys}: registration order is no longer the lookup order", where=b.where(blk), cfg=cfg)
     chk.floor(f"registration push sites [{cfg}]", pushes, 5)
+    # a registration is an append, on every path: a builder that sometimes rewrites an existing entry instead (same pattern registered twice ->
+    # the later handler takes the first one's place, ahead of routes registered in between) breaks "first registered route wins"
+    for p, b in sorted(prog.bodies.items()):
+        if not p.startswith("humphrey::") or "promoted" in p or "{closure" in p:
+            continue
+        ps = [blk for blk, t in b.calls_to(r"^std::vec::Vec::<T, A>::push$") if any(x in " ".join(t.get("arg_tys", [])[:1]) for x in ("RouteHandler<", "WebsocketRouteHandler<"))]
+        if not ps or not core.re.search(r"::with_\w*route$", p):
+            continue
+        w = core.must_pass(b, [0], core.return_blocks(b), through_nodes=ps, after_from=False)
+        chk.ob("R4.registration", p, "the route is appended on every path through the builder", w is None,
+               "the builder can return without appending the new route (it rewrites or skips instead): registration order is no longer lookup order", path=w, cfg=cfg)
+    for sname in ("humphrey::route::RouteHandler", "humphrey::route::WebsocketRouteHandler"):
+        st = prog.structs.get(sname, {}).get("fields", [])
+        frozen = {i for i, x in enumerate(st) if x["name"] in ("route", "handler")}
+        short = sname.rsplit("::", 1)[-1] + "<"
+        for p, b in sorted(prog.bodies.items()):
+            if not p.startswith("humphrey::") or "promoted" in p:
+                continue
+            for bi, blk in enumerate(b.blocks):
+                for st_ in blk["stmts"]:
+                    if "pl" not in st_ or "rv" not in st_:
+                        continue
+                    fs = [e for e in st_["pl"]["p"] if e[0] == "f"]
+                    if len(fs) == 1 and fs[0][1] in frozen and short in (b.local_ty(st_["pl"]["l"]) or "") and [e for e in st_["pl"]["p"] if e[0] == "d"]:
+                        chk.ob("R4.registration", p, f"a registered {short[:-1]}'s pattern / handler is never rewritten in place", False,
+                               f"field `{st[fs[0][1]]['name']}` of an entry of the route list is overwritten: the entry keeps its position but no longer is what was registered there",
+                               where=b.where(bi), cfg=cfg)
 
 
 def http_no_match(chk, prog, cfg):
